@@ -165,7 +165,11 @@ CORRUPTIONS = [
     ("AsRef", "struct S { #[as_ref(skip)] #[as_ref(forward)] a: Vec<u8>, b: u8 }", "conflict"), ("AsRef", "#[as_ref(forward)] #[as_ref(u8)] struct S(Vec<u8>);", "conflict"),
     ("AsRef", "#[as_ref(forward)] struct S(#[as_ref] Vec<u8>);", "conflict"), ("Debug", 'struct S { #[debug(skip)] #[debug("{a}")] a: u8 }', "conflict"),
     ("Debug", '#[debug("x")] struct S { #[debug("{a}")] a: u8 }', "conflict"),
-    ("Into", "#[into(u16, owned(u32))] struct S(u8);", "conflict"), ("Error", "struct S { #[error(source)] a: E1, #[error(source)] b: E1 }", "conflict"),
+    ("Into", "#[into(u16, owned(u32))] struct S(u8);", "conflict"),
+    ("Into", "#[into(u16, ref(u8))] struct S(u8);", "conflict"), ("Into", "#[into(u16, ref)] struct S(u8);", "conflict"),
+    ("Into", "#[into(ref_mut, u16)] struct S(u8);", "conflict"), ("Into", "#[into(ref_mut(u8), u16)] struct S(u8);", "conflict"),
+    ("Into", "struct S { #[into(u16, ref(u8))] a: u8, b: u8 }", "conflict"), ("Into", "#[into(owned, u16)] struct S(u8);", "conflict"),
+ ("Error", "struct S { #[error(source)] a: E1, #[error(source)] b: E1 }", "conflict"),
     ("Deref", "struct S { #[deref] a: u8, #[deref] b: u8 }", "conflict-panic-ok"),
     # meaningless for the item kind / wrong position
     ("Mul", "struct S(#[mul(forward)] u8);", "position"), ("Mul", "#[mul(forward)] enum E { A(u8) }", "position"),
